@@ -360,7 +360,8 @@ Definition channel_view (a : account) (k : N) : option bytes :=
 (* Account.to_dict(encrypt_password) *)
 Definition account_to_dict (pwd : option bytes) (rnd : list bytes) (a : account) : jv * account * list bytes :=
   let pks0 := if negb (a_encrypted a) then match a_priv a with Some x => x | None => a_pks a end else a_pks a in
-  let sealing := negb (a_encrypted a) && match pwd with Some pw => nonempty pw | None => false end in
+  (* any password string seals, the empty one included (`encrypt_password is not None`) *)
+  let sealing := negb (a_encrypted a) && match pwd with Some _ => true | None => false end in
   let pw := match pwd with Some pw => pw | None => [] end in
   let '(pks, ivp, rnd1) :=
     if sealing && nonempty pks0
@@ -371,7 +372,7 @@ Definition account_to_dict (pwd : option bytes) (rnd : list bytes) (a : account)
     then let (iv, rnd2) := get_iv (a_iv_seed a) rnd1 in (aes_encrypt pw (a_seed a) iv, Some iv, rnd2)
     else (a_seed a, a_iv_seed a, rnd1) in
   (JO [(c_ledger, JS (a_ledger a)); (c_name, JS (a_name a)); (c_seed, JS seed);
-       (c_encrypted, JB (a_encrypted a || match pwd with Some pw => nonempty pw | None => false end));
+       (c_encrypted, JB (a_encrypted a || match pwd with Some _ => true | None => false end));
        (c_private_key, JS pks); (c_public_key, JS (a_pub a));
        (c_address_generator, a_addrgen a); (c_modified_on, JN (a_modified a));
        (c_certificates, a_certs a)],
@@ -483,8 +484,14 @@ Fixpoint unlock_accounts (pw : bytes) (l : list account) : uout * list account :
   end.
 
 Definition unlock (pw : bytes) (w : wallet) : uout * wallet :=
-  let (o, accs) := unlock_accounts pw (w_accounts w) in
-  (o, mkWallet (w_name w) (w_prefs w) accs (match o with UTrue => Some pw | _ => w_pw w end)).
+  match is_locked w, w_pw w with
+  | false, Some q =>
+      (* nothing to decrypt and the wallet already has a password: only that one is accepted, nothing changes *)
+      (if bytes_eqb pw q then UTrue else UFalse, w)
+  | _, _ =>
+      let (o, accs) := unlock_accounts pw (w_accounts w) in
+      (o, mkWallet (w_name w) (w_prefs w) accs (match o with UTrue => Some pw | _ => w_pw w end))
+  end.
 
 Fixpoint lock_accounts (pw : bytes) (rnd : list bytes) (l : list account) : list account * list bytes :=
   match l with
